@@ -10,11 +10,10 @@ Correspondence (harness/cmd/tmpl):
       output of every defined name), asking twice, isolation markers, caching on = caching off;
   (c) concurrency   first use from 2..32 goroutines in CHILD PROCESSES (exit status and stderr observed),
       plain build and race-detector build, look-ups perturbed through the `tmpl.lookup` yield point.
-Known findings (fragment known_findings.d/C19.json): each listed finding is replayed first; while it
-reproduces the model runs in the matching defect variant and the finding's class is excluded from the
-transparency clauses (implementation = model is still required there).  Removing a finding from the
-fragment is the whole change needed after its repair: its class is then checked like any other case and
-its witness in corpus/C19 must pass.
+No known findings: the two defects this check exposed (executing a cached html base/layout broke later
+views; view cache keyed by a joined string) are repaired (/repo 0187fed, 7d60dbb) and listed as `fixed` in
+known_findings.d/C19.json.  Their witnesses stay in corpus/C19 and must pass: implementation = model (the
+model is the providers as they are) and caching on = caching off, like every other case.
 """
 import concurrent.futures
 import glob
@@ -69,7 +68,8 @@ def _blocks(lines):
 
 
 def _classes(block):
-    """defect classes (DESIGN 1.5) a block falls into: decidable predicates on its request lines"""
+    """the two formerly defective request classes a block falls into (coverage histogram only): a cached html
+    base/layout object is executed; two view requests whose joined names `layout:view` coincide"""
     f = block[0].split()
     kind, cached = f[1], f[2] == "on"
     cls = set()
@@ -100,8 +100,8 @@ def _req_answers(block, answers):
 
 # ------------------------------------------------------------------ running the two sides
 class Sides:
-    def __init__(self, ctx, go, model, flags):
-        self.ctx, self.go, self.model, self.flags = ctx, go, model, flags
+    def __init__(self, ctx, go, model):
+        self.ctx, self.go, self.model = ctx, go, model
         self.n = 0
 
     def run(self, lines, tag=None):
@@ -118,7 +118,7 @@ class Sides:
         rc, err = self.ctx.run_lines(self.go, ["drive"], ops, a, timeout=1800)
         if rc != 0:
             self.ctx.fatal("implementation driver failed rc=%d %s" % (rc, err[-500:]))
-        rc, err = self.ctx.run_lines(self.model, self.flags, ops, b, timeout=1800)
+        rc, err = self.ctx.run_lines(self.model, [], ops, b, timeout=1800)
         if rc != 0:
             self.ctx.fatal("model driver failed rc=%d %s" % (rc, err[-500:]))
         return [l.rstrip("\n") for l in open(a)], [l.rstrip("\n") for l in open(b)]
@@ -134,50 +134,13 @@ class Sides:
         return [l.rstrip("\n") for l in open(a)]
 
 
-def _opaque(block, impl_answers):
-    """is the implementation cache-transparent on this block? (its own answers, caching flipped)"""
-    return _req_answers(block, impl_answers)
-
-
-def _witness_reproduces(sides, witness):
-    """a finding's witness: do the cached and the uncached half of some pair of blocks answer differently?"""
-    impl = sides.impl_only(witness)
-    blocks, i, per = _blocks(witness), 0, []
-    for b in blocks:
-        per.append(_req_answers(b, impl[i:i + len(b)]))
-        i += len(b)
-    diff = False
-    for j in range(0, len(per) - 1, 2):
-        diff |= per[j] != per[j + 1]
-    return diff, per
-
-
 # ------------------------------------------------------------------ the check
 def _setup(ctx):
-    """build both sides; replay the listed findings and choose the model variant"""
-    go = ctx.build_go("tmpl")
-    model = ctx.build_model("m_tmpl")
-    probe = Sides(ctx, go, model, [])
-    flags, known = [], {}
-    listed = {f["id"]: f for f in ctx.known_findings()}
-    for cls, flag, fid in (("exec", "cloneOut", "KF-C19-1"), ("colon", "pairKey", "KF-C19-2")):
-        f = listed.get(fid)
-        if f is None:
-            flags.append(flag)          # not a known finding (any more): the model is the repaired variant
-            continue
-        rep, per = _witness_reproduces(probe, f["witness"])
-        if rep:
-            known[cls] = fid
-            ctx.known(fid, {"exec": "html provider, caching on: after the caller executed the template from Layout(), "
-                                    "View() fails (cannot Clone after it has executed); caching off succeeds",
-                            "colon": "view cache keyed by layout+\":\"+view: View(p,\"q:r\") is answered with the cached "
-                                     "template of View(\"p:q\",r); caching off builds the right one"}[cls])
-        else:
-            flags.append(flag)
-            ctx.notes.append("%s is listed in known_findings.d/C19.json but its witness no longer shows the defect on %s: "
-                             "treated as repaired (model variant %s); remove the entry from the fragment" % (fid, ctx.repo, flag))
-    ctx.extra["model_variant"] = flags or ["as-is"]
-    return Sides(ctx, go, model, flags), known
+    """build both sides (the model driver without arguments = the providers as they are)"""
+    for f in ctx.known_findings():
+        ctx.fatal("known_findings.d lists %s for C19, but this check has no known-finding handling (both recorded "
+                  "defects are repaired); a new finding needs its defect predicate here and in Props/C19.lean" % f.get("id"))
+    return Sides(ctx, ctx.build_go("tmpl"), ctx.build_model("m_tmpl"))
 
 
 def _shards(ctx, sides, n_cases, shards):
@@ -215,7 +178,7 @@ def _account(ctx, block, answers):
         ctx.histogram["case:ok-and-err"] += 1
 
 
-def _judge_block(ctx, sides, block, known, why):
+def _judge_block(ctx, sides, block, why):
     """a block on which implementation and model differ: minimise, then ask the property (Spec vs Impl)"""
     def fails(lines):
         i, m = sides.run(lines)
@@ -231,8 +194,7 @@ def _judge_block(ctx, sides, block, known, why):
     concrete, detail = False, why
     if any(a == "panic" for a in impl):
         concrete, detail = True, why + "; the provider panicked"
-    cls = _classes(small) | _classes(_twin(small))
-    if not concrete and not (cls & set(known)):
+    if not concrete:
         other = sides.impl_only(_twin(small))
         if _req_answers(small, impl) != _req_answers(small, other):
             concrete = True
@@ -243,9 +205,9 @@ def _judge_block(ctx, sides, block, known, why):
     return concrete
 
 
-def _oracle(ctx, sides, n, known, shards):
+def _oracle(ctx, sides, n, shards):
     per = max(1, n // shards)
-    args = ["oracle", str(per)] + (["known=" + ",".join(sorted(known))] if known else [])
+    args = ["oracle", str(per)]
 
     def one(k):
         env = ctx.goenv()
@@ -302,7 +264,7 @@ def _lts(ctx, sides, n_sched):
         lines.append("lts 0 1 %d %s" % (n, sched))
     ops, out = ctx.path("lts.ops"), ctx.path("lts.model")
     open(ops, "w").write("\n".join(lines) + "\n")
-    rc, err = ctx.run_lines(sides.model, sides.flags, ops, out)
+    rc, err = ctx.run_lines(sides.model, [], ops, out)
     res = [l.strip() for l in open(out)]
     guarded = [r for l, r in zip(lines, res) if l.startswith("lts 1")]
     pinned = [r for l, r in zip(lines, res) if l.startswith("lts 0")]
@@ -314,7 +276,7 @@ def _lts(ctx, sides, n_sched):
 
 def run(ctx):
     failed = ctx.lean_obligations()
-    sides, known = _setup(ctx)
+    sides = _setup(ctx)
     shards = ctx.pick(6, 12)
     n_cases = ctx.pick(1400, 24000)
     ctx.rule = ("cases = random template file sets on memfs (template names from a pool of 5 plus the root and per-directory "
@@ -339,9 +301,9 @@ def run(ctx):
             _account(ctx, b, ia)
             per.append((b, _req_answers(b, ia)))
             if ia != ma:
-                concrete_found |= _judge_block(ctx, sides, b, known, "corpus %s: implementation and model differ" % os.path.basename(f))
+                concrete_found |= _judge_block(ctx, sides, b, "corpus %s: implementation and model differ" % os.path.basename(f))
         for (b1, a1), (b2, a2) in zip(per[0::2], per[1::2]):
-            if b1[1:] == b2[1:] and a1 != a2 and not ((_classes(b1) | _classes(b2)) & set(known)):
+            if b1[1:] == b2[1:] and a1 != a2:
                 concrete_found = True
                 ctx.violation("impl-vs-spec", "corpus %s: caching on and off answer differently" % os.path.basename(f),
                               lines=b1 + b2, annotations=["cached: " + " | ".join(a1), "uncached: " + " | ".join(a2)])
@@ -364,22 +326,20 @@ def run(ctx):
                 ctx.samples.append(dict(ops=b[:40], impl=ia[:40], model=ma[:40]))
             if ia != ma and bad < 2:
                 bad += 1
-                concrete_found |= _judge_block(ctx, sides, b, known, "implementation and model differ")
+                concrete_found |= _judge_block(ctx, sides, b, "implementation and model differ")
         for (b1, a1), (b2, a2) in zip(per[0::2], per[1::2]):
             cls = _classes(b1) | _classes(b2)
             for c in cls:
                 ctx.histogram["class:" + c] += 1
-            if cls & set(known):
-                continue
             ctx.histogram["transparent-checked"] += 1
             if a1 != a2 and bad < 4:
                 bad += 1
                 concrete_found = True
-                ctx.violation("impl-vs-spec", "caching on and off answer differently (outside every known defect class)",
+                ctx.violation("impl-vs-spec", "caching on and off answer differently",
                               lines=b1 + b2, annotations=["cached: " + " | ".join(a1), "uncached: " + " | ".join(a2)])
     ctx.log("differential done")
     # ---- the property's clauses against the reference renderer
-    ofails = _oracle(ctx, sides, ctx.pick(1000, 16000), known, shards)
+    ofails = _oracle(ctx, sides, ctx.pick(1000, 16000), shards)
     for f in ofails[:3]:
         concrete_found = True
         ctx.violation("impl-vs-spec", "clause of the property fails on the implementation (reference renderer): " + f["head"][:1500],
@@ -443,7 +403,7 @@ def replay(ctx, path):
         print(out[-3000:])
         print("replay:", "still failing" if rc != 0 else "child exited 0")
         return 1 if rc != 0 else 0
-    sides, known = _setup(ctx)
+    sides = _setup(ctx)
     impl, model = sides.run(lines)
     rc, i, per = 0, 0, []
     for b in _blocks(lines):
@@ -456,7 +416,7 @@ def replay(ctx, path):
         per.append((b, _req_answers(b, impl[i:i + len(b)])))
         i += len(b)
     for (b1, a1), (b2, a2) in zip(per[0::2], per[1::2]):
-        if b1[1:] == b2[1:] and a1 != a2 and not ((_classes(b1) | _classes(b2)) & set(known)):
+        if b1[1:] == b2[1:] and a1 != a2:
             print("caching on :", " | ".join(a1))
             print("caching off:", " | ".join(a2))
             rc = 1
